@@ -327,6 +327,10 @@ CLAIMS.update({
                 'per-round premises RoundOkHN = receiver established, Room, Normal (receive queue pop-normalised), HeadOk. This is the STRONGEST drain theorem: beyond the standing hypotheses (MTU < 2^30, fragment size fits the MTU, < 2^31 chunks written / in flight, reliable ordered streams, sound SACK history, sender established) '
                 'it assumes exactly those four per-round premises. C02_netsys_entry_cap_off_partial: with maxReassemblyQueueEntries = 0 every reassembly queue of every reachable state has maxEntries = 0 (run_z), pushWithError returns no limit error and never panics, so a chunk acceptPayloadData decides to store is stored - the step towards deriving Normal and HeadOk, which are NOT yet assembled '
                 '(Normal needs: no bare push in a handleData trace => pop-normalised after every packet; HeadOk needs in addition willSendAbort = false along the run and non-empty user data of every history chunk). Room from FitsBuffer and reads = writes stay open (converse of Reasm.OrdInv.pushed); C02_netsys_all_read is NOT stated. '
+                'FIFTH PASS (Proofs/NetSys/Live{Normal,Abort,NoCap}.lean): C02_netsys_nocap_invariants - with maxReassemblyQueueEntries = 0 the receive queue is pop-normalised in EVERY reachable state (no handleData trace is a bare push: accept_stored), and when every chunk of the history decodes to non-empty user data the receiver never raises the ABORT flag and never panics; '
+                'C02_netsys_drains_honest_nocap - NOW THE STRONGEST drain theorem: Normal and HeadOk are discharged, the per-round premises are only "receiver established" and Room (credit, or something held above the cumulative point). Standing hypotheses: MTU < 2^30, fragment size fits the MTU, maxReassemblyQueueEntries = 0, '
+                '< 2^31 chunks written / in flight, reliable ordered streams, sound SACK history (Honest), sender established, every chunk of the final history carries user data (WireDataB, assumed not derived). STILL OPEN: Room from FitsBuffer (maxMessageSize <= maxReceiveBufferSize) after the reads and reads = writes at the end '
+                '(converse of Reasm.OrdInv.pushed; C02_netsys_drains_fits / C02_netsys_all_read are NOT stated). '
                 'C02_netsys_stuck_witness (decide): with a receive buffer of two maximal chunks and a 3-chunk message the fault-free healed rounds NEVER deliver - acceptPayloadData drops the third chunk at a full buffer, the '
                 'incomplete message cannot be read, credit stays 0 - so "buffer >= one maximal chunk + application reads" is not enough; every message in progress must fit the receive buffer (maxMessageSize <= maxReceiveBufferSize; '
                 'true for the defaults 64 KiB / 1 MiB, not enforced by Config). '
